@@ -12,12 +12,16 @@ Has(f) == f \in DOMAIN E
 Arg(f) == IF Has(f) THEN E[f] ELSE ""
 
 TReset == IsEv("Reset") /\ login' = "none" /\ nsess' = 0 /\ pin' = InitPin /\ open' = [t \in Threads |-> FALSE] /\ ro' = [t \in Threads |-> FALSE]
-          /\ pend' = [t \in Threads |-> Idle] /\ nkey' = 0 /\ nracy' = 0 /\ skey' = 0 /\ bn' = E.b
+          /\ pend' = [t \in Threads |-> Idle] /\ nkey' = 0 /\ nracy' = 0 /\ tlab' = "orig" /\ trisk' = FALSE /\ skey' = 0 /\ bn' = E.b
 TInv   == IsEv("Inv") /\ Inv(E.t, E.c, Arg("a"), Arg("b")) /\ UNCHANGED bn
 TLin   == l <= Len(T) /\ (\E t \in Threads : Lin(t)) /\ UNCHANGED <<l, bn>>
 TRet   == IsEv("Ret") /\ Ret(E.t, E.c, E.rv, Arg("st")) /\ UNCHANGED bn
           /\ (PurgedByLogout(E.t, E.c, E.rv) => PrintT(<<"DEV", bn, "LogoutSplit">>))
-TFinal == IsEv("Final") /\ Final(E.st, E.pin, E.nkeys, E.bad, E.plain) /\ UNCHANGED <<vars, bn>>
+          /\ (BusyRefused(E.t, E.c, E.rv) => PrintT(<<"DEV", bn, IF E.c = "tget" THEN "DirtyRead" ELSE "TransactionBusy">>))
+          /\ (E.c = "tget" /\ E.rv = "OK" /\ Arg("st") # tlab => PrintT(<<"DEV", bn, "DirtyRead">>))
+          /\ (KeyLost(E.c, E.rv) => PrintT(<<"DEV", bn, "TornWrite">>))
+TFinal == IsEv("Final") /\ Final(E.st, E.pin, E.nkeys, E.bad, E.plain, IF Has("lab") THEN E.lab ELSE tlab) /\ UNCHANGED <<vars, bn>>
+          /\ (Has("lab") /\ E.lab # tlab => PrintT(<<"DEV", bn, "TornWrite">>))
           /\ (E.bad > 0 \/ E.nkeys # nkey => PrintT(<<"DEV", bn, "LogoutSplit">>))
 
 TInit == Init /\ l = 1 /\ bn = 0 /\ TLCSet(1, 1)
